@@ -180,6 +180,15 @@ fn bin_matches_second(b: &BinVal, v: &MV) -> bool {
     }
 }
 
+/// cells are equal, or temporal values that differ only in the (legal) length form used
+fn same_cell(a: &Cell, b: &Cell) -> bool {
+    match (a, b) {
+        (Cell::Bin(BinVal::Date(_, y, mo, d, h, mi, s, us)), Cell::Bin(BinVal::Date(_, y2, mo2, d2, h2, mi2, s2, us2))) => (y, mo, d, h, mi, s, us) == (y2, mo2, d2, h2, mi2, s2, us2),
+        (Cell::Bin(BinVal::Time(_, n, d, h, m, s, us)), Cell::Bin(BinVal::Time(_, n2, d2, h2, m2, s2, us2))) => (n, d, h, m, s, us) == (n2, d2, h2, m2, s2, us2),
+        _ => a == b,
+    }
+}
+
 struct RowsOut {
     rows: Vec<Vec<Cell>>,
     refused: bool,
@@ -322,7 +331,7 @@ fn check_pattern(n: usize, patterns: &[Vec<bool>], st: &mut Stats) -> Result<(),
         for i in 0..n {
             let (t, u) = CYCLE[i % 12];
             let want = if patterns[r][i] { Cell::Null } else { Cell::Bin(expected_cell(&row[i], t as u8, u).expect("cycle values fit their columns")) };
-            if out.rows[r][i] != want {
+            if !same_cell(&out.rows[r][i], &want) {
                 let key = if (out.rows[r][i] == Cell::Null) != patterns[r][i] { "null-bitmap-wrong" } else { "cell-differs" };
                 return Err(Violation::new(key, format!("{} columns, row {}, column {}: wrote {}, client decodes {:?}", n, r, i, val_short(&row[i]), out.rows[r][i])));
             }
@@ -586,7 +595,7 @@ impl Family for TypeMatrix {
             None => Err(Violation::new("mismatch-accepted", format!("{}: accepted although the column cannot carry the value; client decodes {:?}", what, out.rows[0][1]))),
             Some(bv) => {
                 for r in 0..2 {
-                    if out.rows[r][1] != Cell::Bin(bv.clone()) {
+                    if !same_cell(&out.rows[r][1], &Cell::Bin(bv.clone())) {
                         return Err(Violation::new("cell-differs", format!("{}: client decodes {:?}, expected {:?}", what, out.rows[r][1], bv)));
                     }
                     if out.rows[r][0] != Cell::Bin(BinVal::Int(0x11)) || out.rows[r][2] != Cell::Bin(BinVal::Bytes(b"tail".to_vec())) {
